@@ -680,18 +680,19 @@ graph (`EventVarsPlain`, `DomainsAgree`: the hypotheses of `ctfTRu_no_internal_e
   (findings `crash:ctfTR-derived-event-rejected`, `crash:ctfTR-final-check`);
 * `DstarOneWorld = false`: `D*` names a vertex in two worlds (then the dict of the final checks keeps one of two values);
 * `OutcomeNotCondition = false`: an outcome shares its vertex with a condition (fifth final check);
-and provided every vertex is a variable of some domain's distribution (`PopsCoverNodes`, true of `PP[π](V)`, the
-distributions the public wrapper `CFTDomain` builds; the validator checks it by NAME only). -/
+(Every vertex is a variable of every domain's distribution — `PopsCoverNodes`, needed by the third final check — because
+the validator checks it: `popsCover_of_validateC`.) -/
 theorem ctfTR_no_internal_error_partial (target : MG Name) (ds : List Domain) (o c : Event)
     (hv : validateC target ds o c = .ok ()) (hwf : target.WF) (hds : ∀ d ∈ ds, d.graph.WF)
     (hdom : DomainsAgree target ds) (hplain : EventVarsPlain (o ++ c))
     (hfound : OutcomesFound target o c = true) (hone : DstarOneWorld target o c = true)
-    (hdisj : OutcomeNotCondition o c = true) (hpop : PopsCoverNodes target ds) :
+    (hdisj : OutcomeNotCondition o c = true) :
     ∀ err, ctfTR target ds o c ≠ .error err :=
-  ctfTR_total_of_parts target ds o c hv hwf hds hdom hplain hfound hone hdisj hpop
+  ctfTR_total_of_parts target ds o c hv hwf hds hdom hplain hfound hone hdisj (popsCover_of_validateC target ds o c hv)
     (qGood_holds target ds o c hv hwf hds (fun d hd => (hdom d hd).2) hplain)
 
-/-- the composition behind it, with the facts about `Q` as a hypothesis (`QGood`; holds by `ctfTR_q_good`) -/
+/-- the composition behind it, with the facts about the domains' distributions and about `Q` as hypotheses
+(`PopsCoverNodes`, `QGood`; they hold by `popsCover_of_validateC` and `ctfTR_q_good`) -/
 theorem ctfTR_no_internal_error_of_parts (target : MG Name) (ds : List Domain) (o c : Event)
     (hv : validateC target ds o c = .ok ()) (hwf : target.WF) (hds : ∀ d ∈ ds, d.graph.WF)
     (hdom : DomainsAgree target ds) (hplain : EventVarsPlain (o ++ c))
@@ -705,12 +706,12 @@ theorem ctfTR_answers_or_fails (target : MG Name) (ds : List Domain) (o c : Even
     (hv : validateC target ds o c = .ok ()) (hwf : target.WF) (hds : ∀ d ∈ ds, d.graph.WF)
     (hdom : DomainsAgree target ds) (hplain : EventVarsPlain (o ++ c))
     (hfound : OutcomesFound target o c = true) (hone : DstarOneWorld target o c = true)
-    (hdisj : OutcomeNotCondition o c = true) (hpop : PopsCoverNodes target ds) :
+    (hdisj : OutcomeNotCondition o c = true) :
     (∃ a, ctfTR target ds o c = .ok (some a)) ∨ ctfTR target ds o c = .ok none := by
   rcases ctfTR_trichotomy target ds o c hv with h | h | ⟨err, herr, _⟩
   · exact Or.inl h
   · exact Or.inr h
-  · exact absurd herr (ctfTR_no_internal_error_partial target ds o c hv hwf hds hdom hplain hfound hone hdisj hpop err)
+  · exact absurd herr (ctfTR_no_internal_error_partial target ds o c hv hwf hds hdom hplain hfound hone hdisj err)
 
 /-- the parts, for reference: lines 1-2 never raise (`line2C_ok`), Algorithm 2's validator accepts a non-empty `D*`
 (`validateU_dstar`), and line 4 never raises under the stated facts (`line4C_ok`) -/
@@ -722,8 +723,7 @@ theorem ctfTR_line2_total (target : MG Name) (hwf : target.WF) (o c : Event)
 
 -- OPEN: ctfTR_no_internal_error (Algorithm 3, for every validated input)
 --   theorem ctfTR_no_internal_error (hv : validateC target ds o c = .ok ()) (hwf : target.WF) (hds : ∀ d ∈ ds, d.graph.WF)
---       (hdom : DomainsAgree target ds) (hplain : EventVarsPlain (o ++ c)) (hpop : PopsCoverNodes target ds) :
---       ∀ err, ctfTR target ds o c ≠ .error err
+--       (hdom : DomainsAgree target ds) (hplain : EventVarsPlain (o ++ c)) : ∀ err, ctfTR target ds o c ≠ .error err
 --   FALSE of the current code without `OutcomesFound`: witness `a3Miss` below (ValueError from Algorithm 2's validator on
 --   the empty D*), confirmed on the Python (findings crash:ctfTR-derived-event-rejected, crash:ctfTR-final-check).
 --   OPEN whether the two other class hypotheses of `ctfTR_no_internal_error_partial` are needed:
@@ -756,7 +756,6 @@ example : ∀ err, ctfTR fig2a [fig2dom1, fig2dom2] a3Out a3Cond ≠ .error err 
         simp only [List.mem_cons, List.not_mem_nil, or_false] at hd
         rcases hd with rfl | rfl <;> exact MG.wf_fromEdges _ _ _)
     fig2_domainsAgree (by unfold EventVarsPlain; decide) (by decide +kernel) (by decide +kernel) (by decide +kernel)
-    (popsCover_of_check _ _ (by decide +kernel))
 
 /-- the returned event of the example is `Y = y, X = x'` -/
 example : (match ctfTR fig2a [fig2dom1, fig2dom2] a3Out a3Cond with
@@ -779,6 +778,15 @@ example : isInternal "ValueError" (ctfTR a3MissGraph [a3MissDom] a3MissOut a3Mis
 /-- the same query with the minimal outcome `Y` is answered -/
 example : isAnswerWithEvent (ctfTR a3MissGraph [a3MissDom] [({ name := 2 }, some ⟨2, false⟩)] a3MissCond) = true := by
   decide +kernel
+
+/-- check 15 of the validators (`v in expression.get_variables()` for every graph vertex `v`) is a test on `Variable`
+OBJECTS: the distribution `PP[π1](Y_x)` names `X` and `Y` but contains neither as a plain variable, and is rejected (as
+the Python: `ValueError`, "some of the vertices in a domain graph do not appear in the expression") -/
+def a3PopDom : Domain :=
+  { graph := MG.fromEdges [] [(1, 2)] [], topo := [1, 2], policy := [],
+    pop := .prob (some (Var.plain 1001)) [{ name := 2, ivs := [⟨1, false⟩] }] [] }
+example : validateU (MG.fromEdges [] [(1, 2)] []) [a3PopDom] [({ name := 2 }, some ⟨2, false⟩)] =
+    .error (.invalidInput "ValueError") := by decide +kernel
 
 end CtfTr
 end Y0
